@@ -22,7 +22,7 @@ RULE = (
     "leaves drawn without repetition from 5 prototypes (names a, b, ab, d, x; types bulk/search/raw-request; tags ['x'], 'xy' as a "
     "plain string, ['x','y','search'], none, 'x' as a string: a name that is also a tag and a tag that is also a type), parallel elements "
     "with derived and with explicit clients, in the first or second challenge of a track; filter lists: every list of 1..2 of "
-    "15 filters (names incl. a non-matching one, type:, tag: incl. substrings of other tags; both orders where two filters of different "
+    "16 filters (names incl. a non-matching one and the name of an operation, type:, tag: incl. substrings of other tags; both orders where two filters of different "
     "kinds carry the same value) as include and as exclude, plus "
     "malformed specs; a set of filtered schedules is executed end to end by the real driver and workers in the race simulation (default "
     "schedule). non-trivial = filter list selects a proper non-empty subset of the leaves; distinct = (schedule, filters, mode)"
@@ -44,7 +44,9 @@ LEAVES = {
 # the second challenge: an unrelated task and a task that equals leaf "a" of the first challenge (name, operation, settings) except for its
 # tags -- decisions must be made per task, not per "equal" task
 OTHER = [("zz-other", "search", ["x"], 1), ("a", "bulk", ["y"], 2)]
-FILTERS = ["a", "b", "ab", "d", "x", "zz", "type:bulk", "type:search", "type:raw-request", "type:composite", "tag:x", "tag:y", "tag:xy", "tag:z", "tag:search"]
+FILTERS = ["a", "b", "ab", "d", "x", "zz", "type:bulk", "type:search", "type:raw-request", "type:composite", "tag:x", "tag:y", "tag:xy", "tag:z", "tag:search",
+           # the name of the OPERATION of task a (tasks are selected by their own name only)
+           "a-op"]
 MALFORMED = ["foo:bar", "a:b:c", "tags:x"]
 
 
